@@ -275,30 +275,51 @@ class HistSim(Sim):
                         f"(max abs err {err:.3g}, tol {tol:.3g})", leaf=i, observed=obs.tolist(), expected=exp.tolist())
 
     def _isolated(self, st, root, g):
-        """contributions of backward(root, g) per leaf, by isolated replay in a fresh world"""
+        """Contributions of backward(root, g) per leaf, by isolated replay in a fresh world.
+
+        Every *use* of a requires-grad leaf gets its own fresh copy, so each copy receives
+        exactly one accumulation term p_k; the contribution is sum_k p_k (float64) and
+        sum_k |p_k| scales the rounding tolerance.  Returns {leaf: (net, abs)} or the exception."""
         SG = st.SG
         reach = sorted(self._reach(st, root))
         try:
             with fresh_modes(SG), quiet():
                 fresh = {}
+                clones = {}
                 done_ev = {}
+
+                def operand(j):
+                    m = st.meta[j]
+                    if m["kind"] == "leaf":
+                        c = SG.Tensor(st.T[j].data.copy(), requires_grad=m["rg"])
+                        if m["rg"]:
+                            clones.setdefault(j, []).append(c)
+                        return c
+                    return fresh[j]
+
                 for i in reach:
                     m = st.meta[i]
                     if m["kind"] == "leaf":
-                        fresh[i] = SG.Tensor(st.T[i].data.copy(), requires_grad=m["rg"])
-                    else:
-                        ev = m["ev"]
-                        key = id(ev)
-                        if key not in done_ev:
-                            done_ev[key] = ops.as_list(ops.apply_op(SG, ev["op"], [fresh[j] for j in ev["in"]], ev["args"]))
-                        fresh[i] = done_ev[key][m["k"]]
+                        continue
+                    ev = m["ev"]
+                    key = id(ev)
+                    if key not in done_ev:
+                        done_ev[key] = ops.as_list(ops.apply_op(SG, ev["op"], [operand(j) for j in ev["in"]], ev["args"]))
+                    fresh[i] = done_ev[key][m["k"]]
                 gt = None if g is None else SG.Tensor(g.copy())
-                fresh[root].backward(gt)
+                rt = operand(root) if st.meta[root]["kind"] == "leaf" else fresh[root]
+                rt.backward(gt)
                 out = {}
-                for i in reach:
-                    if st.meta[i]["kind"] == "leaf" and st.meta[i]["rg"]:
-                        gr = fresh[i].grad
-                        out[i] = None if gr is None else np.asarray(gr.data, dtype=np.float64).copy()
+                for i, cs in clones.items():
+                    net = np.zeros(st.T[i].data.shape)
+                    ab = np.zeros(st.T[i].data.shape)
+                    for c in cs:
+                        gr = c.grad
+                        if gr is not None:
+                            a = np.asarray(gr.data, dtype=np.float64)
+                            net = net + a
+                            ab = ab + np.abs(a)
+                    out[i] = (net, float(ab.max()) if ab.size else 0.0)
                 return out
         except SimFault:
             raise
@@ -449,7 +470,9 @@ class HistSim(Sim):
             return
         t = st.T[i]
         how = ev["how"]
-        snap = self._snapshot(st, list(st.T))
+        reach = self._reach(st, i)
+        snap = self._snapshot(st, [j for j in st.T if j not in reach])
+        data_snap = {j: st.T[j].data.tobytes() for j in reach}
         try:
             with quiet():
                 if how == "noscalar_nog":
@@ -464,7 +487,11 @@ class HistSim(Sim):
             st.probes["rejected_backward"] += 1
             st.obs("bad_backward", how, type(e).__name__)
             # a rejected call is not "issued": nothing may have changed (zero-initialised buffers are the same observable sum)
+            # (.grad of reachable NON-leaf tensors is not asserted: the statement is about leaves)
             self._check_unchanged(st, snap, "C04.rejected_call_changed_state", f"rejected backward ({how})")
+            for j, d in data_snap.items():
+                if st.T[j].data.tobytes() != d:
+                    st.fail("C04.rejected_call_changed_state", f"rejected backward ({how}): data of tensor {j} changed", tensor=j)
             self._check_leaves(st, f"after rejected backward ({how})")
             st.cur_sig = "bad:" + how
             return
@@ -565,11 +592,9 @@ class HistSim(Sim):
         if retry:
             st.probes["retry_after_fault"] += 1
             st.last_fault_root = None
-        for i, c in contrib.items():
-            if c is None:
-                continue
+        for i, (c, ab) in contrib.items():
             st.ledger[i] = c.copy() if st.ledger[i] is None else st.ledger[i] + c
-            st.abs[i] += float(np.max(np.abs(c))) if c.size else 0.0
+            st.abs[i] += ab
         st.was_root.add(root)
         st.was_interior.update(i for i in reach if i != root and st.meta[i]["kind"] == "node")
         st.obs("backward", root, role)
